@@ -108,6 +108,9 @@ H_DEC = K(CB, 'decrypt_block_contract', 'open block of CryptoCore::decrypt: key 
 H_AGR = K(CB, 'seal_then_open_nonce_agreement', 'receiver reconstructs the sealing nonce iff it is in the other half and the counter fits 56 bits; reflected or overflowed datagrams meet a different nonce (cannot open)')
 PROPS['C02'] = {
     'level': 'proof',
+    # the per-peer envelope decisions: nothing is interpreted unless plain mode was negotiated or a ready core opened it; nothing leaves
+    # unsealed unless plain mode was negotiated (unit buffer, the same verbatim functions as for C08)
+    'verus': [{'unit': 'buffer', 'fns': ['PeerCrypto::(decrypt_message|encrypt_message|handle_message|send_message|get_core)', 'CryptoCore::(decrypt|encrypt)', 'is_init_message']}],
     'kani': {
         'files': {'src/crypto/core.rs': ['kani/coreblocks.rs.in', 'kani/core.rs']},
         'harnesses': [H_ENC, H_DEC, H_AGR,
@@ -247,7 +250,7 @@ PROPS['C08'] = {
     'level': 'proof',
     'level_text': 'Proof for the per-peer receive path: MsgBuffer, CryptoCore::decrypt/encrypt (buffer geometry) and PeerCrypto::{handle_message, decrypt_message, encrypt_message, send_message} verbatim in Verus: for EVERY well-formed buffer (any length incl. 0, any content) and every state of the peer object every callee precondition (index bounds, arithmetic, assert!) is established, i.e. no panic. NodeInfo::decode and RotationMessage::read_from (and the Range/Address decoders under them) are total on EVERY byte sequence (unit codec: no panic, no overflow, every loop terminates, allocation bounded by the 16-bit part length). The handshake decoder InitMsg::read_from is NOT decided.',
     'verus': [{'unit': 'buffer'}, {'unit': 'cloud', 'fns': ['GenericCloud::handle_net_message', 'GenericCloud::handle_message']},
-              {'unit': 'codec', 'rlimit': 60, 'fns': ['Address::read_from.*', 'Range::read_from', 'NodeInfo::(read_addr_list.*|decode.*)', 'RotationMessage::read_from', 'lemma_flag_fields', 'lemma_prepend2', 'canary_.*']}],
+              {'unit': 'codec', 'rlimit': 60, 'safety_only': True, 'fns': ['Address::read_from.*', 'Range::read_from', 'NodeInfo::(read_addr_list.*|decode.*)', 'RotationMessage::read_from', 'lemma_flag_fields', 'lemma_prepend2', 'canary_.*']}],
     'kani': {
         'files': {'src/crypto/core.rs': ['kani/coreblocks.rs.in', 'kani/core.rs']},
         'harnesses': [
@@ -320,6 +323,7 @@ PROPS['C17'] = {
     },
     'native_search': {'kani::beaconblocks::beacon_age_window_is_cyclic_distance': {'file': 'native/beacon_age.rs', 'attach': 'src/beacon.rs', 'test': 'beacon_age_window_is_cyclic'},
                       'base62::lemma_roundtrip_any_body': {'file': 'native/beacon_roundtrip.rs', 'attach': 'src/beacon.rs', 'test': 'beacons_round_trip_for_every_hour'},
+                      r'beacon::BeaconSerializer::get_keystream': {'file': 'native/beacon_password.rs', 'attach': 'src/beacon.rs', 'test': 'beacons_of_other_passwords_are_ignored'},
                       r'beacon::BeaconSerializer::mask_with_keystream': {'file': 'native/beacon_long_text.rs', 'attach': 'src/beacon.rs', 'test': 'long_beacon_bodies_do_not_panic'}},
     'trusted': [
         'SHA-512 key stream as an uninterpreted function ks(password, type, seed, block) of length 64; R6: SmallVec<[u8;64]> modelled by Vec<u8>',
@@ -328,7 +332,7 @@ PROPS['C17'] = {
     'not_decided': [
         'marker search in arbitrary text (BeaconSerializer::decode: str::find, sanitising, several beacons per text, overlapping begin/end markers)',
         'peerlist_encode / peerlist_decode field layout (SmallVec, SocketAddr constructors, Wrapping)',
-        'rejection of beacons made with a different password (1-byte seed check)',
+        'rejection of beacons made with a different password beyond "the whole password reaches the SHA-512 input" (get_keystream contract + lemma_ks_input_injective): the 1-byte seed check and the marker comparison are not under contract; collision resistance is the cipher assumption',
     ],
 }
 
